@@ -38,7 +38,7 @@ func hprop(id, rule string, quick, thorough int, probes []string, faults []strin
 		FaultKinds:   append(append([]string{}, netFaults...), faults...),
 		ProbeNames:   append(append([]string{}, baseProbes...), probes...),
 		Run:          func(c *core.Ctx) { hw.Run(c, o) },
-		QuickSeconds: quick, ThoroughSeconds: thorough, MinRuns: 2000, BatchSize: 250,
+		QuickSeconds: quick, ThoroughSeconds: thorough, MinRuns: 2000, BatchSize: 250, RunTimeoutSeconds: 900,
 	})
 }
 
